@@ -4,7 +4,7 @@
    Text is a sequence of code points (TLC cannot look inside strings), so every law below is
    byte-exact.  A list is a sequence of lines; a line is
        lead spec [gap1 kw1 gaps1 kw2 ... kwN] trail comment eol
-     lead, gap1, gaps[i], trail : runs of blanks (space / tab)
+     lead, gap1, gaps[i], trail : runs of blanks (space, tab and every other in-line Unicode white space)
      spec, kws[i]               : tokens (no white space, not starting with '#')
      comment                    : empty, or '#'... up to the end of the line; a '#' only starts a
                                   comment at the start of the line or after a blank
@@ -16,9 +16,12 @@ EXTENDS Integers, Sequences, SequencesExt, FiniteSets, TLC
 
 SP == 32   TAB == 9   LF == 10   CR == 13   HASH == 35
 KStar == <<42>>   KCaret == <<94>>   KDash == <<45>>
-IsBlank(c) == c \in {SP, TAB}
-\* further characters Python treats as white space or as line boundaries: outside the property's domain
-Exotic == {11, 12, 28, 29, 30, 31, 133, 160, 5760, 8232, 8233, 8239, 8287, 12288} \cup (8192..8202)
+\* blanks: every character str.split() / \s treat as white space inside a line -- tab, space, US (0x1f), NBSP, OGHAM SPACE,
+\* EN QUAD..HAIR SPACE, NNBSP, MMSP, IDEOGRAPHIC SPACE
+Blanks == {TAB, 31, SP, 160, 5760, 8239, 8287, 12288} \cup (8192..8202)
+IsBlank(c) == c \in Blanks
+\* the other line boundaries of str.splitlines() (VT FF FS GS RS NEL LS PS): outside the property's domain
+Exotic == {11, 12, 28, 29, 30, 133, 8232, 8233}
 
 Line(lead, spec, gap1, kws, gaps, trail, comment, eol) ==
   [lead |-> lead, spec |-> spec, gap1 |-> gap1, kws |-> kws, gaps |-> gaps, trail |-> trail, comment |-> comment, eol |-> eol]
